@@ -43,6 +43,15 @@ func acsClass(t *Task) string {
 	return "supported-acs"
 }
 
+func anySupported(c *SPCfg) bool {
+	for _, a := range c.ACS {
+		if a.Binding == BindPost || a.Binding == BindRedirect {
+			return true
+		}
+	}
+	return false
+}
+
 func bindingClass(b string) string {
 	switch b {
 	case BindPost:
@@ -118,6 +127,14 @@ func oracleC08(r *Result) {
 		shape := replyShape(t)
 		if len(ps) == 1 {
 			w.probe("sso_persisted")
+			// registry model: the issuer's registration did not change while this request was served and not one of its
+			// consumer endpoints uses a binding the IdP can answer with ⇒ the request cannot be answered and must not be persisted
+			if c := ps[0]; c.IssuerSPCfg != nil && c.IssuerSP >= 0 && c.IssuerSP < len(t.SPVers0) && t.SPVers0[c.IssuerSP] == c.IssuerSPVer && !anySupported(c.IssuerSPCfg) {
+				r.violate("C08 persisted-although-unanswerable", "C08:sso:persisted-although-unanswerable:registered-acs-all-unsupported",
+					"a request that cannot be answered (every consumer endpoint registered for its issuer uses an unsupported binding) is never persisted",
+					fmt.Sprintf("persisted as %s with (%s, %s); registered: %+v; reply: %s", c.Snap.ID, c.Snap.ACS, c.Snap.Binding, c.IssuerSPCfg.ACS, replySummary(t)), t.ID)
+				continue
+			}
 			want := loginURLFor(ps[0].Snap.SP)(ps[0].Snap.ID)
 			if ps[0].Snap.SP == -2 {
 				want = ""
@@ -157,7 +174,7 @@ func oracleC08(r *Result) {
 func (g G) planC08() *Plan {
 	o := &mixOpts{family: "sso-outcomes",
 		world: worldOpts{maxSPs: 3, maxUsers: 2, maxReplicas: 2, hardPct: 10, hardURLPct: 25, acsVariety: true, signReqVariety: true, parkVariety: true, noCertPct: 15, issuerVariety: true},
-		wSSO:  40, wCallback: 3, wSLO: 2, wResume: 30, wFinish: 15, wAdvance: 3, wRereg: 2, wDelSP: 1, wRestart: 1,
+		wSSO:  40, wCallback: 3, wSLO: 2, wResume: 30, wFinish: 15, wAdvance: 3, wRereg: 5, wDelSP: 1, wRestart: 1,
 		devPct: 35, tamperPct: 15, timePct: 15, faultPcts: []int{0, 0, 15, 30}, bodyFaultPct: 10, writeFaultPct: 5, rogueSPPct: 5, hostVariety: true,
 		minSteps: 3, maxSteps: 30, maxPre: 1, autoFinishPct: 35}
 	p := g.planMix("C08", o)
